@@ -89,7 +89,7 @@ fn step(st: &mut St, ws: &[&str]) -> String {
     let n = |i: usize| -> u64 { ws[i].parse().unwrap() };
     // operand registers must exist (a refused downsample leaves its target register unset)
     let srcs: &[usize] = match ws[0] {
-        "obs" | "scaled" | "add" => &[1],
+        "obs" | "scaled" | "add" | "set" => &[1],
         "copy" | "ds" | "dsm" => &[2],
         "merge" | "isect" | "cc" | "sim" | "ccx" | "simx" | "iszx" => &[1, 2],
         _ => &[],
@@ -129,6 +129,15 @@ fn step(st: &mut St, ws: &[&str]) -> String {
             match r {
                 Reg::V(x) => x.add_many_with_abund(&ps).unwrap(),
                 Reg::T(x) => x.add_many_with_abund(&ps).unwrap(),
+            }
+            obs(r)
+        }
+        // set R h a : KmerMinHash::set_hash_with_abundance (vector type only)
+        "set" => {
+            let r = st.regs.get_mut(&n(1)).unwrap();
+            match r {
+                Reg::V(x) => x.set_hash_with_abundance(n(2), n(3)),
+                Reg::T(_) => return "bad-op".into(),
             }
             obs(r)
         }
